@@ -40,7 +40,12 @@ BlockShapes ==
     { <<"p", ps>> : ps \in ParaShapes }
     \cup { <<"h", lv, <<R>>>> : lv \in 1..2 }
     \cup ListShapes \cup TableShapes
-    \cup { <<"sdt", <<P1>>>>, <<"tbx", <<P1>>>>, <<"sdt", <<P1, P1>>>> }
+    \cup { <<"sdt", <<P1>>>>, <<"tbx", <<P1>>>>, <<"sdt", <<P1, P1>>>>,
+           <<"sdt", << <<"sdt", <<P1>>>> >>>>,                          \* content control nested in a content control
+           <<"sdt", << P1, <<"sdt", <<P1>>>>, P1 >>>>,
+           <<"sdt", << SmallTbl >>>>,                                   \* table inside a content control
+           <<"sdt", << <<"ul", << <<P1>> >>>> >>>>,
+           <<"tbx", <<P1, P1>>>> }                                      \* text box with two paragraphs
 
 \* heading-section documents (C03): every sequence of headings (levels 1..3) and plain paragraphs
 HeadingShapes == { <<"h", lv, <<R>>>> : lv \in 1..3 } \cup { P1 }
